@@ -13,13 +13,14 @@ open Trso (isTnode tnode targetPop nsort)
 theorem validateC_facts (target : MG Name) (ds : List Domain) (o c : Event) (h : validateC target ds o c = .ok ()) :
     (∀ p ∈ o ++ c, p.2.isSome = true) ∧ o ≠ [] ∧ c ≠ [] ∧
     (∀ p ∈ c ++ o, p.1.name ∈ target.nodes) ∧ valueMismatch (c ++ o) = false ∧ target.isAcyclic = true ∧
-    validateCommon target ds ((c ++ o).map (·.1)) false (valueMismatch (c ++ o)) = .ok () := by
+    validateCommon target ds ((c ++ o).map (·.1)) false false (valueMismatch (c ++ o)) = .ok () := by
   unfold validateC vErr at h
   obtain ⟨h0, h⟩ := ite_error_ok h
   obtain ⟨hc, h⟩ := ite_error_ok h
   obtain ⟨ho, h⟩ := ite_error_ok h
   have hcommon := h
   unfold validateCommon vErr at h
+  obtain ⟨_, h⟩ := ite_error_ok h
   obtain ⟨_, h⟩ := ite_error_ok h
   obtain ⟨_, h⟩ := ite_error_ok h
   obtain ⟨_, h⟩ := ite_error_ok h
@@ -50,13 +51,14 @@ theorem validateC_facts (target : MG Name) (ds : List Domain) (o c : Event) (h :
 
 /-- the checks of `validateCommon` that do not look at the event carry over to any event over the nodes of the target
 graph that has a value and no value of another variable -/
-theorem validateCommon_transfer (target : MG Name) (ds : List Domain) (vs vs' : List Var) (an vm an' vm' : Bool)
-    (h : validateCommon target ds vs an vm = .ok ()) (hvs : ∀ v ∈ vs', v.name ∈ target.nodes)
-    (han : an' = false) (hvm : vm' = false) : validateCommon target ds vs' an' vm' = .ok () := by
-  subst han hvm
+theorem validateCommon_transfer (target : MG Name) (ds : List Domain) (vs vs' : List Var) (an sn vm an' sn' vm' : Bool)
+    (h : validateCommon target ds vs an sn vm = .ok ()) (hvs : ∀ v ∈ vs', v.name ∈ target.nodes)
+    (han : an' = false) (hsn : sn' = false) (hvm : vm' = false) : validateCommon target ds vs' an' sn' vm' = .ok () := by
+  subst han hsn hvm
   unfold validateCommon vErr at h ⊢
   obtain ⟨h1, h⟩ := ite_error_ok h
   obtain ⟨h2, h⟩ := ite_error_ok h
+  obtain ⟨_, h⟩ := ite_error_ok h
   obtain ⟨_, h⟩ := ite_error_ok h
   obtain ⟨h4, h⟩ := ite_error_ok h
   obtain ⟨h5, h⟩ := ite_error_ok h
@@ -70,7 +72,7 @@ theorem validateCommon_transfer (target : MG Name) (ds : List Domain) (vs vs' : 
     intro hh
     obtain ⟨v, hv, hvn⟩ := List.any_eq_true.1 hh
     exact (by simpa using hvn : v.name ∉ target.nodes) (hvs v hv)
-  rw [if_neg h1, if_neg h2, if_neg (by simp), if_neg h4, if_neg h5, if_neg h6, if_neg h7, if_neg h8, if_neg h9,
+  rw [if_neg h1, if_neg h2, if_neg (by simp), if_neg (by simp), if_neg h4, if_neg h5, if_neg h6, if_neg h7, if_neg h8, if_neg h9,
     if_neg h10, if_neg (by simp)]
   exact h
 
@@ -80,12 +82,13 @@ query -/
 theorem validateU_dstar (target : MG Name) (ds : List Domain) (o c : Event) (hv : validateC target ds o c = .ok ())
     (dstar : Event) (hne : dstar ≠ []) (hn : ∀ q ∈ dstar, q.1.name ∈ target.nodes)
     (hval : ∃ q ∈ dstar, q.2.isSome = true)
+    (hns : ∀ q ∈ dstar, selfIntervened q.1 = false)
     (hmm : ∀ q ∈ dstar, ∀ i, q.2 = some i → ∃ p ∈ o, p.1.name = q.1.name ∧ p.2 = some i) :
     validateU target ds dstar = .ok () := by
   obtain ⟨_, _, _, _, hvm, _, hcommon⟩ := validateC_facts target ds o c hv
   unfold validateU
   rw [if_neg (by simpa using hne)]
-  apply validateCommon_transfer target ds _ _ _ _ _ _ hcommon
+  apply validateCommon_transfer target ds _ _ _ _ _ _ _ _ hcommon
   · intro v hv
     obtain ⟨q, hq, rfl⟩ := List.mem_map.1 hv
     exact hn q hq
@@ -95,6 +98,15 @@ theorem validateU_dstar (target : MG Name) (ds : List Domain) (o c : Event) (hv 
     | true =>
       have := List.all_eq_true.1 hall q hq
       cases hq2 : q.2 <;> simp_all
+  · cases hsn : selfNone dstar with
+    | false => rfl
+    | true =>
+      exfalso
+      unfold selfNone at hsn
+      obtain ⟨q, hq, hqs⟩ := List.any_eq_true.1 hsn
+      simp only [Bool.and_eq_true] at hqs
+      rw [hns q hq] at hqs
+      exact absurd hqs.2 (by simp)
   · cases hm : valueMismatch dstar with
     | false => rfl
     | true =>
